@@ -23,7 +23,9 @@ MANIFEST = {
             'Cipolla branch. The model is compared with the real methods on all elements of 27 primes <= 257 and on '
             'boundary/random elements of 61/64-bit primes of both classes (legendre also for 127/255-bit primes). Interleaved '
             'passes (cold, then warm caches) alternate sqrt/is_sqr of different fields back to back (two q = 1 mod 4 extension '
-            'fields in a row, mixed with q = 3 mod 4, binary and prime fields) under a per-call time limit.',
+            'fields in a row, mixed with q = 3 mod 4, binary and prime fields) under a per-call time limit; a further pass uses '
+            'all distinct irreducible moduli of the same order (degree 2 over GF(3), GF(5), GF(7), GF(13), degree 4 over GF(3)) '
+            'back to back, sqrt/sqrt(INV) on squares of every element index.',
     'note': 'Coq model restricted to prime fields (the p = 1 mod 4 branch of PrimeFieldElement is Cipolla-Lehmer; Tonelli-Shanks '
             'exists only in ExtensionFieldElement). Extension fields (Tonelli-Shanks; q = 1 and 3 mod 4) and binary fields '
             '(Frobenius) are covered by the implementation-level oracle only: is_sqr/sqrt/INV against brute-force squares on all '
@@ -144,10 +146,73 @@ def interleaved(ctx, finfields, rng, rounds=None):
     return n
 
 
+def same_order_fields(ctx, finfields, rng):
+    """Distinct irreducible moduli of the SAME order q = 1 mod 4 used back to back (state keyed by the field order
+    instead of the field class would leak between them): all monic irreducibles of degree 2 over GF(3), GF(5), GF(7),
+    GF(13) and of degree 4 over GF(3); sqrt and sqrt(INV) on every square, is_sqr on every element, each call
+    under a time limit."""
+    from mpyc import gfpx
+    n = 0
+    for (pp, dd, cap) in [(3, 2, None), (5, 2, None), (7, 2, None), (13, 2, ctx.n(6, 40)), (3, 4, ctx.n(6, 18))]:
+        q = pp ** dd
+        poly = gfpx.GFpX(pp)
+        mods = [m for m in (poly(q + k) for k in range(q)) if poly.is_irreducible(m)]      # monic, degree dd
+        if cap and len(mods) > cap:
+            mods = [mods[0]] + rng.sample(mods[1:], cap - 1)
+        Fs = [finfields.GF(m) for m in mods]
+        if len(set(Fs)) != len(mods) or any(F.order != q for F in Fs):
+            ctx.violation('same-order-fields-not-distinct GF(%d^%d)' % (pp, dd), {'moduli': [str(m) for m in mods]})
+        dead = set()
+        order = list(range(1, q))
+        rng.shuffle(order)
+        order = [0] + order[:ctx.n(40, q)]
+        for i in order:
+            for k, F in enumerate(Fs):                      # same element index, the different fields back to back
+                if k in dead:
+                    continue
+                name = 'GF(%d^%d) mod %s' % (pp, dd, mods[k])
+                x = F(i)
+                a = x * x
+                n += 1
+                try:
+                    with time_limit(5):
+                        if not a.is_sqr():
+                            ctx.violation('same-order-is_sqr-wrong ' + name, {'field': name, 'a': int(a)})
+                        r = a.sqrt()
+                        if type(r) is not F or r * r != a:
+                            ctx.violation('same-order-sqrt-wrong ' + name, {'field': name, 'a': int(a), 'got': str(r)})
+                        if i == 0:
+                            try:
+                                a.sqrt(INV=True)
+                                ctx.violation('same-order-inv-sqrt-of-zero ' + name, {'field': name})
+                            except ZeroDivisionError:
+                                pass
+                        else:
+                            ri = a.sqrt(INV=True)
+                            if type(ri) is not F or ri * ri * a != F(1) or ri * r not in (F(1), -F(1)):
+                                ctx.violation('same-order-inv-sqrt-wrong ' + name, {'field': name, 'a': int(a), 'got': str(ri)})
+                        # a non-square: x^2 * (a fixed non-residue) is never a square
+                        y = F(rng.randrange(1, q))
+                        if y.is_sqr() != (fpow(y, (q - 1) // 2, F(1)) == F(1)):
+                            ctx.violation('same-order-is_sqr-wrong ' + name, {'field': name, 'a': int(y)})
+                except StepTimeout:
+                    ctx.violation('same-order-sqrt-timeout ' + name, {'field': name, 'a': int(a), 'limit_s': 5,
+                                                                      'other_moduli_used_before': [str(m) for m in mods[:k]]})
+                    dead.add(k)
+                except Exception as ex:  # noqa
+                    ctx.violation('same-order-sqrt-raises ' + name, {'field': name, 'a': int(a), 'got': repr(ex),
+                                                                     'other_moduli_used_before': [str(m) for m in mods[:k]]})
+                ctx.case({'so': name, 'a': int(a)}, nontrivial=i != 0, kind='same-order distinct moduli q=%d' % q)
+    return n
+
+
 def run(ctx):
     from mpyc import finfields, gmpy
     ok = ctx.build(['MPyC.Sqrt', 'MPyC.Euler']) and ctx.check_props()
     rng = ctx.rng
+    nso = same_order_fields(ctx, finfields, rng)                         # caches cold
+    ctx.extra['same_order_distinct_moduli_checks'] = nso
+    ctx.log('same-order distinct-moduli sqrt checks: %d' % nso)
     nil = interleaved(ctx, finfields, rng, rounds=ctx.n(400, 4000))      # first use of every field class: caches cold
     ctx.rule = ('case = (field, element a): sqrt(a), sqrt(a, INV=True), is_sqr(a); all elements for primes <= 257 (both '
                 'classes mod 4, plus 2), for every extension/binary field of order <= 2^16; random squares and non-squares '
